@@ -231,6 +231,9 @@ def _cb_sync(ctx, cnt, fc):
             retval = ctx.out_object
 
         if cnt == 0 and fc._ostr:
+            # the direct caller asked for the serialized response: it gets
+            # what a client gets, where an Ignored is not sent.
+            fc._server.drop_ignored(ctx)
             fc._server.get_out_string(ctx)
             retval = ctx.out_string
 
